@@ -496,6 +496,10 @@ _ENUMS: dict = {}
 _DCS: dict = {}
 
 
+def T_(c, p=()):
+    return {"c": c, "p": list(p)}
+
+
 def txt(symbols) -> str:
     return unsym(symbols)
 
@@ -551,6 +555,7 @@ def g_dc(fields):
         cls.__module__ = __name__
         globals()[cls.__name__] = cls
         _DCS[key] = cls
+        _DC_FIELDS[cls] = fields
     return _DCS[key]
 
 
@@ -579,6 +584,40 @@ def g_type(t):
     if c == "dc":
         return g_dc(p)
     raise ValueError(f"unknown type term {t}")
+
+
+_DC_FIELDS: dict = {}
+
+
+def a_type(T):
+    """alpha for type hints: read the REAL typing object back into a type term.  typing caches parametrised generics by
+    equality and Union / Literal equality ignores the order of the members, so Tuple[Union[str, float], ...] may come back
+    as the cached Tuple[Union[float, str], ...] of an earlier case: the term handed to TLC must be what the parser saw."""
+    if T is str or T is int or T is float or T is bool:
+        return T_(T.__name__)
+    if T is type(None):
+        return T_("none")
+    if isinstance(T, type) and issubclass(T, enum.Enum):
+        return T_("enum", [syms(m) for m in T.__members__])
+    if dataclasses.is_dataclass(T):
+        fields = _DC_FIELDS[T]
+        return T_("dc", [[f[0], a_type(df.type), f[2]] for f, df in zip(fields, dataclasses.fields(T))])
+    origin, args = typing.get_origin(T), typing.get_args(T)
+    if origin is Literal:
+        return T_("literal", [a_value(v) for v in args])
+    if origin is Union:
+        return T_("union", [a_type(a) for a in args])
+    if origin is list:
+        return T_("list", [a_type(args[0])])
+    if origin is set:
+        return T_("set", [a_type(args[0])])
+    if origin is tuple:
+        if len(args) == 2 and args[1] is Ellipsis:
+            return T_("tuplee", [a_type(args[0])])
+        return T_("tuple", [a_type(a) for a in args])
+    if origin is dict:
+        return T_("dict", [a_type(args[0]), a_type(args[1])])
+    raise ValueError(f"a_type: {T!r}")
 
 
 def _find_enum(t, name):
@@ -764,13 +803,15 @@ def run_leaf_case(args):
     """one (type, input) on the real code: accept, then every format on every route.  Returns plain data."""
     idx, t, x, workdir = args
     os.chdir(workdir)
-    out = {"idx": idx, "accept": None, "obs": []}
+    out = {"idx": idx, "accept": None, "obs": [], "t": t}
     try:
         T = g_type(t)
+        t = a_type(T)  # what the parser really sees (typing's cache may have reordered Union / Literal members)
         px = g_tree(x)
     except Exception as ex:
         out["accept"] = {"k": "other", "v": ["gamma:" + type(ex).__name__ + ":" + str(ex)[:80]]}
         return out
+    out["t"] = t
     try:
         p = _leaf_parser(T)
         cfg = p.parse_object({"x": copy.deepcopy(px)})  # parse_object may rewrite nested containers of its argument (C08)
@@ -924,9 +965,12 @@ def strip_cfg(ns):
 def run_cfg_case(args):
     idx, sh, shape, cfg, workdir = args
     os.chdir(workdir)
-    out = {"idx": idx, "obs": [], "note": None}
+    out = {"idx": idx, "obs": [], "note": None, "shape": shape}
     style = idx % 2
     try:
+        shape = {"top": [dict(e, t=a_type(g_type(e["t"]))) for e in shape["top"]],
+                 "subs": [[n, [dict(e, t=a_type(g_type(e["t"]))) for e in es]] for n, es in shape["subs"]], "required": shape["required"]}
+        out["shape"] = shape
         p = build_parser(shape, style)
         ns = p.parse_object(cfg_tree_py(shape, cfg))
         seen = a_cfg(shape, ns)
@@ -1075,6 +1119,7 @@ def run_pool(fn, jobs):
 def collect_leaf(rec: DumpRecorder, results, cases, origin: str, rep: Report):
     for r in results:
         t, x = cases[r["idx"]]
+        t = r.get("t", t)
         acc = r["accept"]
         if acc["k"] == "other":
             machinery_failure(PID, f"gamma could not build the case {show_type(t)} / {show_value(x)}: {acc}")
@@ -1091,8 +1136,9 @@ def collect_cfg(rec: DumpRecorder, results, cases, origin: str, rep: Report):
         if r["note"]:
             rep.add_drift("a configuration of the model could not be set up on the real parser: " + r["note"], {"shape": sh, "cfg": show_value(cfg)})
             continue
+        sh = rec.shape_index(r["shape"])
         for o in r["obs"]:
-            rec.cfgs.append({k: o[k] for k in ("sh", "cfg", "fmt", "sn", "sd", "route", "doc", "re", "same")})
+            rec.cfgs.append(dict({k: o[k] for k in ("cfg", "fmt", "sn", "sd", "route", "doc", "re", "same")}, sh=sh))
             rec.meta_c.append({"origin": origin})
 
 
@@ -1222,10 +1268,6 @@ HAZARD_POOL = ["1e3", "1E3", "1e+3", "1.e3", "-9e1", "._1", "._", "1_0e3", "a\x8
                "a\tb", "\ta", "a\\b", "---", "...", "-", ":", "?", "a:", ":a", "é", "日本", "\U0001f600", "a b", "x" * 90 + " y " + "z" * 30, "abc", "RED", "None", "{}", "[]"]
 NAME_POOL = ["a", "b", "c", "x", "y", "lr", "name", "on", "null", "n", "yes", "key1", "A_b"]
 ENUM_NAMES = [["RED", "GREEN"], ["on", "off"], ["A", "B", "C"], ["null", "true"], ["x"]]
-
-
-def T_(c, p=()):
-    return {"c": c, "p": list(p)}
 
 
 def V_(k, text):
@@ -1538,10 +1580,10 @@ def main(argv):
             fut_sc = pool.submit(tlc.run, "MC_Scalars", f"MC_Scalars_{tier}", workers=DEV_WORKERS, timeout=2400, heap=DEV_HEAP) if "scalars" in PARTS else None
             fut_du = pool.submit(tlc.run, "MC_Dump", f"MC_Dump_{tier}", workers=DEV_WORKERS, timeout=2400, heap=DEV_HEAP) if "dump" in PARTS else None
             # meanwhile: the hypothesis-driven inputs (pure python)
-            texts = hypothesis_texts(1500 if tier == "quick" else 12000, tier) if "scalars" in PARTS else []
+            texts = hypothesis_texts(1000 if tier == "quick" else 12000, tier) if "scalars" in PARTS else []
             floats = hypothesis_floats(300 if tier == "quick" else 3000) if "scalars" in PARTS else []
-            leaf_cases = hypothesis_leaf_cases(250 if tier == "quick" else 4000) if "hyp" in PARTS else []
-            raw_shapes = hypothesis_shapes(40 if tier == "quick" else 500) if "hyp" in PARTS else []
+            leaf_cases = hypothesis_leaf_cases(200 if tier == "quick" else 4000) if "hyp" in PARTS else []
+            raw_shapes = hypothesis_shapes(30 if tier == "quick" else 500) if "hyp" in PARTS else []
             mark("hypothesis_inputs_generated")
             fut_ts = None
             if fut_sc is not None:
